@@ -1315,7 +1315,9 @@ func (ls *LState) Replace(idx int, value LValue) {
 			}
 		case GlobalsIndex:
 			if tb, ok := value.(*LTable); ok {
+				// the table of globals of this thread is the environment newly loaded chunks get (gt(L) in Lua 5.1)
 				ls.G.Global = tb
+				ls.Env = tb
 			} else {
 				ls.RaiseError("_G must be a table(%v)", value.Type().String())
 			}
@@ -1355,7 +1357,8 @@ func (ls *LState) Get(idx int) LValue {
 			}
 			return ls.currentFrame.Fn.Env
 		case GlobalsIndex:
-			return ls.G.Global
+			// the thread's table of globals: what setfenv(0, t) sets and what a newly loaded chunk sees
+			return ls.Env
 		default:
 			fn := ls.currentFrame.Fn
 			index := GlobalsIndex - idx - 1
